@@ -7,7 +7,7 @@ scratch copy of /repo (outside /repo and /verif, removed at the end), run the
 property's quick check against it with a reduced budget and record whether it
 was killed.
 
-usage: tools/automut.py OUT.jsonl [PROP ...] [--per-func N] [--runs N]
+usage: tools/automut.py OUT.jsonl [PROP ...] [--per-func N] [--runs N] [--rng N]
 """
 import ast
 import copy
@@ -207,7 +207,7 @@ def mutants_for(path, names, per_func, rng):
 def main():
     args = sys.argv[1:]
     outp = args.pop(0)
-    per_func, runs = 6, None
+    per_func, runs, rng_seed = 6, None, 20260924
     props = []
     while args:
         a = args.pop(0)
@@ -215,10 +215,12 @@ def main():
             per_func = int(args.pop(0))
         elif a == "--runs":
             runs = args.pop(0)
+        elif a == "--rng":
+            rng_seed = int(args.pop(0))
         else:
             props.append(a)
     props = props or list(TARGETS)
-    rng = random.Random(20260924)
+    rng = random.Random(rng_seed)
     tmp = tempfile.mkdtemp(prefix="rigautomut-")
     subprocess.check_call(["rsync", "-a", "--exclude", ".git", "--exclude",
                            "__pycache__", "/repo/", tmp + "/"])
